@@ -20,7 +20,8 @@ RULE = ("random layouts: n in 1..40, 1..3 sensitive x 0..2 control features, 1..
         "frequencies (singletons and empty intersections frequent), value type per column str/int/bool/float, features "
         "given as list/1-D/2-D ndarray/Series/DataFrame/dict, metrics bare or dict of 1..3 with different/absent "
         "per-sample parameters, parameters as list/ndarray/Series with hostile index. Data are row ids "
-        "(y_true=i, y_pred=i+1e6, params=i+k*1e6); the RecordingMetric returns its invocation number so each cell is "
+        "(y_true=i, y_pred=i+1e6, params=i+k*1e6, in 30% of the cases offset by 2^60 so that a detour through float64 is visible, a "
+        "second parameter of a metric is float-valued); the RecordingMetric returns its invocation number so each cell is "
         "traced to the rows it saw; second channel: count / weighted mean_prediction / two-parameter metric / "
         "selection_rate / sklearn accuracy vs a row-level reference. distinct = distinct (n, #sensitive, #control, "
         "sorted cell sizes, #empty cells, feature container, metric form); non-trivial = >=2 non-empty groups. "
@@ -180,15 +181,18 @@ def run_case(cls, key, seed, ctx):
                        sizes, n_empty)
 
 
-def build_metrics(rng, n):
+BIG = 2 ** 60  # integers this large do not survive a detour through float64
+
+
+def build_metrics(rng, n, base=0):
     """returns (metrics argument, sample_params argument, [(name, RecordingMetric, {param: values})], form)"""
-    ids = np.arange(n)
+    ids = np.arange(n) + base
     form = gen.pick(rng, ["bare", "bare_params", "dict1", "dict2", "dict3"])
     specs = []
     if form.startswith("bare"):
         pnames = [] if form == "bare" else gen.pick(rng, [["sample_weight"], ["w", "extra"], ["sample_weight", "z"]])
         m = RecordingMetric("recmetric", 0.0, pnames)
-        params = {p: (ids + (k + 2) * 10 ** 6).tolist() for k, p in enumerate(pnames)}
+        params = {p: ((ids + (k + 2) * 10 ** 6).tolist() if k == 0 else (np.arange(n) + 0.5 + k).tolist()) for k, p in enumerate(pnames)}
         sp = {p: wrap_param(rng, v) for p, v in params.items()} if pnames else None
         if pnames and rng.random() < 0.2:
             sp["unused_none"] = None
@@ -201,7 +205,7 @@ def build_metrics(rng, n):
         name = ["alpha", "beta", "gamma"][j]
         pnames = gen.pick(rng, [[], ["sample_weight"], ["w", "extra"], ["sample_weight"]])
         m = RecordingMetric(shared_name or name, (j + 1) * 10 ** 4, pnames)
-        params = {p: (ids + (3 * j + q + 2) * 10 ** 6).tolist() for q, p in enumerate(pnames)}
+        params = {p: ((ids + (3 * j + q + 2) * 10 ** 6).tolist() if q == 0 else (np.arange(n) + 0.25 + j + q).tolist()) for q, p in enumerate(pnames)}
         metrics[name] = m
         if pnames:
             sp[name] = {p: wrap_param(rng, v) for p, v in params.items()}
@@ -213,11 +217,12 @@ def build_metrics(rng, n):
 
 def run_layout(ctx, rng, MetricFrame, n, ns, nc, scols, snames, skind, spayload, ccols, cnames, ckind, cpayload,
                part, cpart, exp_idx, sizes, n_empty):
-    ids = list(range(n))
+    base = BIG if rng.random() < 0.3 else 0
+    ids = [i + base for i in range(n)]
     y_true = ids
     y_pred = [i + 10 ** 6 for i in ids]
-    metrics, sp, specs, form = build_metrics(rng, n)
-    ctx.mark([n, ns, nc, sizes, n_empty, skind, ckind, form], len(part) >= 2,
+    metrics, sp, specs, form = build_metrics(rng, n, base)
+    ctx.mark([n, ns, nc, sizes, n_empty, skind, ckind, form, base != 0], len(part) >= 2,
              sample={"n": n, "sensitive": {snames[i]: scols[i] for i in range(ns)}, "control": {cnames[i]: ccols[i] for i in range(nc)},
                      "sensitive_container": skind, "control_container": ckind, "metric_form": form,
                      "cell_sizes": sizes, "empty_cells": n_empty})
@@ -244,7 +249,7 @@ def run_layout(ctx, rng, MetricFrame, n, ns, nc, scols, snames, skind, spayload,
                   got=type(bg).__name__)
     for name, m, params in specs:
         def exp_rows(rows):
-            return sorted([tuple([i, i + 10 ** 6] + [params[p][i] for p in m.param_names]) for i in rows], key=repr)
+            return sorted([tuple([i + base, i + base + 10 ** 6] + [params[p][i] for p in m.param_names]) for i in rows], key=repr)
         col = bg if isinstance(bg, pd.Series) else bg[name]
         for k_raw, v in col.items():
             k = norm_key(k_raw, nlev)
